@@ -271,6 +271,21 @@ func registerRound2() {
 		Quick: 2, Thor: 3,
 	})
 
+	// ---------------------------------------------------------------- C03: a request with message ID 0 is a request
+	for _, op := range []string{"bind", "search", "modify", "delete", "whoami", "unknownext"} {
+		regSpec(&Spec{
+			Name: "message-id-0-" + op, Props: []string{"C03", "C06"},
+			Conns: []ConnSpec{{Ops: []string{"bind", op + "@0", "search"}, Segs: []int{1, 1, 1}, Expect: 3}},
+			Quick: 2, Thor: 3,
+		})
+	}
+	regSpec(&Spec{
+		Name: "message-id-0-without-route", Props: []string{"C03"},
+		Srv:   SrvOpts{NoDefaultRoute: true, OnlyRoutes: []string{"bind", "unbind"}},
+		Conns: []ConnSpec{{Ops: []string{"bind", "delete@0", "bind"}, Segs: []int{1, 1, 1}, Expect: 3}},
+		Quick: 2, Thor: 3,
+	})
+
 	// ---------------------------------------------------------------- C11
 	// Stop while a StartTLS handler waits for a ClientHello that never comes
 	regSpec(&Spec{
